@@ -117,6 +117,7 @@ C03Chains == { <<V("none", 0)>>, <<V("once", 0)>>, <<V("n", 0)>>, <<V("n", 2)>>,
                <<V("once", 0), V("none", 0)>>, <<V("n", 2), V("atleast", 1)>>, <<V("n", 0), V("none", 0)>> }
 C03LeavesQ == { Leaf1(m, "each", p, c) : m \in {"r0", "r1"}, p \in {{0}, Arg}, c \in C03Chains }
               \cup { Leaf1("r0", "some", {1}, Open), Leaf1("r2", "next", {0}, <<V("n", 2)>>) }
+              \cup { Leaf1("r1", "some", {0}, c) : c \in {<<V("atleast", 1)>>, <<V("n", 2)>>} }
 C03LeavesT == { Leaf1(m, f, p, c) : m \in {"r0", "r1"}, f \in {"each", "some"}, p \in PredFam \ {{}}, c \in C03Chains }
               \cup { Leaf1("r2", "next", {0}, c) : c \in {<<V("n", 2)>>, Open, <<V("n", 1), V("n", 1)>>} }
               \cup { Leaf("r1", "stub", <<Pat({0}, c), Pat(Arg, d)>>) : c, d \in {<<V("n", 1)>>, <<V("atleast", 1)>>, Open} }
